@@ -201,12 +201,12 @@ func init() {
 		Rule: "a writer child process opens an on-disk bucket, runs a model-generated history over all entry points (3 collections, views indexed every 5 ops) and streams INTENT before and ACK (with the key's full read-back) after every call; it is SIGKILLed (i) by the hook handler at the n-th hit of each of txn.begin / txn.precommit / cas.between / txn.postcommit / event.prepost, (ii) inside SQLite's commit by strace injecting SIGKILL at the N-th pwrite64, (iii) right after the last ACK, (iv) externally while idle, plus a clean Close as control; a FRESH process reopens the bucket (ReOpenExisting and CreateOrOpen alternately) and dumps every key of every collection, UUID, collections, design documents and a non-stale view query; oracle: every key equals the read-back of its last acknowledged call, the key of the call in flight is either unchanged or passes the full sequential judge as a completed call (all-or-nothing over body, xattrs, CAS, expiry, revision), the view agrees with the surviving documents, CAS values after reopening with a rewound clock exceed every acknowledged CAS, and a document with a 2 s expiry written before the kill is tombstoned within 3 s of its deadline after reopen without client activity; cell = (kill class, entry point in flight, applied / not applied)",
 		Assumptions: []string{"process death only: power loss / fsync ordering is not observable here (the page cache survives a killed process)", "kills before the writer reported the bucket open are outside the statement and are not judged", "strace counts pwrite64 per thread, so N selects a crash point only approximately; the oracle does not depend on where the kill landed"},
 		Parts: []sup.Part{
-			crashPart("hook-kills", 480, 6000, hookKillScenario),
-			crashPart("hook-kills-withmeta", 170, 1700, withMetaKillScenario),
+			crashPart("hook-kills", 480, 12000, hookKillScenario),
+			crashPart("hook-kills-withmeta", 170, 3400, withMetaKillScenario),
 			crashPart("kills-during-admin-calls", 160, 2400, adminKillScenario),
-			crashPart("pwrite-kills", 144, 3000, straceKillScenario),
+			crashPart("pwrite-kills", 144, 6000, straceKillScenario),
 			crashPart("controls", 45, 300, controlScenario),
-			crashPart("reopen-clock", 40, 400, reopenClockScenario),
+			crashPart("reopen-clock", 40, 1200, reopenClockScenario),
 			crashPart("pending-expiry", 30, 300, pendingExpiryScenario),
 		},
 		Floor: func(tier string, m *sup.Merged) string {
